@@ -90,9 +90,12 @@ class Message:
 
         # Parse headers into key/value pairs paying attention
         # to continuation lines.
+        num_fields = 0
         while lines:
-            if len(headers) >= self.limit_request_fields:
+            # count every field line received, including ones dropped below
+            if num_fields >= self.limit_request_fields:
                 raise LimitRequestHeaders("limit request headers fields")
+            num_fields += 1
 
             # Parse initial header name: value pair.
             curr = lines.pop(0)
